@@ -41,8 +41,8 @@ class SplineGroove(GrooveBase):
             )
         ]
 
-        # shift center to 0,0
-        contour_points[:, 0] -= np.mean(contour_points[:, 0])
+        # shift center (the middle of the extent, independent of the sampling density) to 0,0
+        contour_points[:, 0] -= (np.min(contour_points[:, 0]) + np.max(contour_points[:, 0])) / 2
 
         half_width = contour_points[-1, 0]
 
